@@ -56,7 +56,7 @@ def rowsData (i : SaveInfo) : List UInt8 := (i.rows.flatMap (rowBytes i.aw i.bw)
     the `/Length` that `to_pdf_stream` appends -/
 def xrefInfoDict (i : SaveInfo) : Dict R :=
   [(kType, .name kXRef), (kSize, .int i.rows.length), (kIndex, .arr [.int 0, .int i.rows.length]),
-   (kW, .arr [.int 1, .int i.aw, .int i.bw]), (kLengthK, .int (rowsData i).length)]
+   (kW, .arr [.int 1, .int i.aw, .int i.bw]), (kwLength, .int (rowsData i).length)]
 
 /-- `Stream<XRefInfo>::to_primitive`: what `fulfill(xref_promise, stream)` leaves pending -/
 def xrefStreamVal (i : SaveInfo) : Prim R := .stream (xrefInfoDict i) (.pending (rowsData i))
@@ -68,16 +68,16 @@ def params (fmt : R → List UInt8) : Params (Prim R) :=
 /-- the abstract document over primitives, the `/ID` strings of its trailer, and the backend bytes -/
 structure BDoc (R : Type) where
   doc : Doc (Prim R)
-  ids : List (Prim R)
+  ids : List (List UInt8)
   bytes : List UInt8
 
 /-- `Trailer::to_dict` -/
-def trailerDict (size : Nat) (tr : Trailer (Prim R)) (infoRef : Option Nat) (ids : List (Prim R)) : Dict R :=
+def trailerDict (size : Nat) (tr : Trailer (Prim R)) (infoRef : Option Nat) (ids : List (List UInt8)) : Dict R :=
   [(kSize, .int size)] ++
   (match tr.prev with | some p => [(kPrev, .int p)] | none => []) ++
   [(kRoot, .ref tr.root.1 tr.root.2)] ++
   (match infoRef with | some i => [(kInfo, .ref i 0)] | none => []) ++
-  [(kID, .arr ids)]
+  [(kID, .arr (ids.map .str))]
 
 /-- `for (k, v) in trailer_dict.iter() { info.insert(k, v) }` -/
 def mergeDict (d extra : Dict R) : Dict R := extra.foldl (fun acc kv => dictInsert acc kv.1 kv.2) d
@@ -92,11 +92,11 @@ def framesOf (fmt : R → List UInt8) (changes : List (Nat × Prim R × Nat)) : 
   changes.flatMap (frameOf fmt)
 
 /-- the dictionary of the cross-reference stream object as written: its own entries, then the trailer's -/
-def xrefDict (tr : Trailer (Prim R)) (ids : List (Prim R)) (infoRef : Option Nat) (i : SaveInfo) : Dict R :=
+def xrefDict (tr : Trailer (Prim R)) (ids : List (List UInt8)) (infoRef : Option Nat) (i : SaveInfo) : Dict R :=
   mergeDict (xrefInfoDict i) (trailerDict i.size tr infoRef ids)
 
 /-- the cross-reference stream object: `"{id} 0 obj\n"`, the stream, `"endobj\n"` -/
-def xrefObjBytes (fmt : R → List UInt8) (tr : Trailer (Prim R)) (ids : List (Prim R)) (infoRef : Option Nat)
+def xrefObjBytes (fmt : R → List UInt8) (tr : Trailer (Prim R)) (ids : List (List UInt8)) (infoRef : Option Nat)
     (i : SaveInfo) : List UInt8 :=
   match serialize fmt (.stream (xrefDict tr ids infoRef i) (.pending (rowsData i))) with
   | .ok body => fmtNat i.xid ++ [32, 48, 32] ++ kwObj ++ [10] ++ body ++ kwEndobj ++ [10]
@@ -108,9 +108,9 @@ def tailBytes (i : SaveInfo) : List UInt8 := [10] ++ kwStartxref ++ [10] ++ fmtN
 /-- the record lengths as they follow from the values -/
 def layoutOf (fmt : R → List UInt8) (b : BDoc R) : Layout :=
   ⟨fun id => match chLookup (prep b.doc).st2.changes id with
-      | some (v, g) => (frameOf fmt (id, v, g)).length
-      | none => 0,
-   fun i => (xrefObjBytes fmt b.doc.tr b.ids (prep b.doc).infoRef i).length,
+      | some (v, g) => max 1 (frameOf fmt (id, v, g)).length     -- (a frame is never empty; `max` only
+      | none => 1,                                                --  makes that evident to the theorems)
+   fun i => max 1 (xrefObjBytes fmt b.doc.tr b.ids (prep b.doc).infoRef i).length,
    fun i => (tailBytes i).length⟩
 
 /-- what one successful save appends -/
